@@ -245,6 +245,10 @@ def read_rows(db_path):
             'select u.url, q.status, q.try_count, q.level, q.inline_level, q.link_type from queued_urls q '
             'join url_strings u on u.id = q.url_string_id order by q.id')
         return [dict(url=r[0], status=r[1], try_count=r[2], level=r[3], inline_level=r[4], link_type=r[5]) for r in cur]
+    except sqlite3.OperationalError as e:
+        if 'no such table' in str(e):
+            return []           # a database whose tables were never (all) created
+        raise
     finally:
         con.close()
 
